@@ -422,3 +422,37 @@ M("C12", "OPA inner EOF always computes", "xeofs/single/opa.py", '            co
 M("C06", "isolated predicate against per-sample maximum", SA, "[0, X_valid_features.sum().values]", "[0, X_valid_features_per_sample.max().values]", "GUARD.isolated.predicate")
 M("C08", "clip outside sqrt", XU, "return np.sqrt(np.cos(np.deg2rad(data)).clip(0, 1))", "return np.sqrt(np.cos(np.deg2rad(data))).clip(0, 1)", "WIRE.stats.coslat")
 M("C16", "pattern map without conjugate transpose", WH, "            VS = self.T.conj().T\n            VS = VS.rename({\"mode\": dummy_dim})", "            VS = self.T.rename({\"mode\": dummy_dim})", "ADJOINT.maps.adjoint")
+
+# ---------------------------------------------------------------- learned from seeded defects (round 3) and the refactoring experiment
+EEOF = "xeofs/single/eeof.py"
+BMS = "xeofs/single/base_model_single_set.py"
+BOOT = "xeofs/validation/bootstrapper.py"
+ROT = "xeofs/single/eof_rotator.py"
+SC = "xeofs/preprocessing/scaler.py"
+M("C01", "inner EOF of ExtendedEOF not centring", EEOF, "            n_modes=n_modes,\n            center=True,", "            n_modes=n_modes,\n            center=False,", "WIRE.extended.center")
+M("C01", "inner EOF of ExtendedEOF standardises again", EEOF, "            center=True,\n            standardize=False,\n            use_coslat=False,\n            compute=self._params[\"compute\"],\n            check_nans=False,\n            sample_name=self.sample_name,\n            feature_name=self.feature_name,\n            solver=", "            center=True,\n            standardize=True,\n            use_coslat=False,\n            compute=self._params[\"compute\"],\n            check_nans=False,\n            sample_name=self.sample_name,\n            feature_name=self.feature_name,\n            solver=", "WIRE.extended.once")
+B("C01", "inner EOF keyword order / default center", EEOF, "            n_modes=n_modes,\n            center=True,\n            standardize=False,", "            standardize=False,\n            n_modes=n_modes,")
+M("C03", "un-whitening with the conjugate transpose", WH, 'return xr.dot(X, self.Tinv, dims="mode")', 'return xr.dot(X, self.Tinv.conj().T, dims="mode")', "MIRROR.stage_inverse")
+M("C03", "un-whitening with T", WH, 'return xr.dot(X, self.Tinv, dims="mode")', 'return xr.dot(X, self.T, dims="mode")', "MIRROR.stage_inverse")
+B("C03", "un-whitening through a temporary", WH, 'return xr.dot(X, self.Tinv, dims="mode")', 'Tinv = self.Tinv\n            return xr.dot(X, Tinv, dims="mode")')
+M("C05", "norms from the new data's sample count", ROT, '        pseudo_norms = self.data["norms"]\n', '        n_new = X.coords[self.preprocessor.sample_name].size\n        pseudo_norms = (self.data["explained_variance"] * (n_new - 1)) ** 0.5\n', "PERSAMPLE")
+M("C05", "projections divided by len of new data", ROT, '        pseudo_norms = self.data["norms"]\n', '        pseudo_norms = self.data["norms"] * (X.shape[0] / X.shape[0] ** 0.5)\n', "PERSAMPLE")
+B("C05", "feature count of the new data is harmless", ROT, '        pseudo_norms = self.data["norms"]\n', '        pseudo_norms = self.data["norms"] * (X.shape[1] / X.shape[1])\n')
+M("C12", "sign flip skipped for dask", DEC, "        if self.flip_signs:\n", "        if self.flip_signs and not use_dask:\n", "EQUIV.branch")
+M("C12", "extra scaling for dask only", DEC, "        if self.flip_signs:\n", "        if use_dask:\n            s = s * 1.0000001\n        if self.flip_signs:\n", "EQUIV.branch")
+B("C12", "dask branch chooses between two solvers symmetrically", DEC, "        if self.flip_signs:\n", "        if use_dask:\n            note = 'dask'\n        else:\n            note = 'numpy'\n        if self.flip_signs:\n")
+M("C14", "components() scales the stored array in place", BMS, "            components = components * self.data[\"norms\"]\n", "            components *= self.data[\"norms\"]\n", "HIST.query_mutates")
+B("C14", "components() scales a copy", BMS, "            components = components * self.data[\"norms\"]\n", "            components = components.copy()\n            components *= self.data[\"norms\"]\n")
+M("C17", "dimension check forgets the weights", SC, "fitted = (self.mean_, self.std_, self.coslat_weights_, self.weights_)", "fitted = (self.mean_, self.std_, self.coslat_weights_)", "GUARD.dims.cover")
+B("C17", "dimension check through a helper", SC, "", "", edits=[("        fitted = (self.mean_, self.std_, self.coslat_weights_, self.weights_)\n", "        fitted = self._fitted()\n"), ("    def _verify_dims(self, X):", "    def _fitted(self):\n        return (self.mean_, self.std_, self.coslat_weights_, self.weights_)\n\n    def _verify_dims(self, X):")])
+M("C20", "generator created once in __init__", BOOT, "", "", "RNG.seed.fresh", edits=[('        rng = np.random.default_rng(self._params["seed"])\n', "        rng = self._rng\n"), ("        self.attrs.update({\"model\": \"Bootstrapped EOF analysis\"})\n", "        self.attrs.update({\"model\": \"Bootstrapped EOF analysis\"})\n        self._rng = np.random.default_rng(seed)\n")])
+B("C20", "member concatenation through a helper", BOOT, "", "", edits=[('        bst_expvar: DataArray = xr.concat(bst_expvar, dim="n")\n', '        bst_expvar: DataArray = self._cat(bst_expvar)\n'), ("    def fit(self, model: EOF):", "    @staticmethod\n    def _cat(members):\n        return xr.concat(members, dim=\"n\")\n\n    def fit(self, model: EOF):")])
+# structural re-spellings that once raised false alarms
+B("C11", "sort loop with continue and De Morgan", ROT, '                if "mode" in self.data[key].dims and key != "idx_modes_sorted":\n                    self.data[key] = (\n                        self.data[key]\n                        .isel(mode=self.data["idx_modes_sorted"].values)\n                        .assign_coords(mode=self.data[key].mode)\n                    )\n', '                if key == "idx_modes_sorted" or "mode" not in self.data[key].dims:\n                    continue\n                self.data[key] = (\n                    self.data[key]\n                    .isel(mode=self.data["idx_modes_sorted"].values)\n                    .assign_coords(mode=self.data[key].mode)\n                )\n')
+B("C10", "identity branch as early return", "xeofs/preprocessing/pca.py", "        if self.use_pca:\n            X = X.rename({self.feature_name: \"mode\"})", "        if not self.use_pca:\n            return X\n        if True:\n            X = X.rename({self.feature_name: \"mode\"})")
+B("C15", "threshold count through a named temporary", DEC, "            n_modes_required = (\n                self.n_modes_precompute\n                - (cum_expvar >= self.n_modes).sum(self.component_dim_name)\n                + 1\n            )\n", "            n_sufficient = (self.n_modes <= cum_expvar).sum(self.component_dim_name)\n            n_modes_required = self.n_modes_precompute - n_sufficient + 1\n")
+B("C13", "params key removed with del", "xeofs/cross/cpcca.py", 'self._params.pop("center")', 'del self._params["center"]')
+B("C05", "multi-index reference as if / elif", "xeofs/preprocessing/multi_index_converter.py", '        match reference:\n            case "fit":\n                reference_indexes = self.coords_from_fit\n            case "transform":\n                reference_indexes = self.coords_from_transform\n', '        if reference == "fit":\n            reference_indexes = self.coords_from_fit\n        elif reference == "transform":\n            reference_indexes = self.coords_from_transform\n')
+B("C02", "multi-index reference as if / elif", "xeofs/preprocessing/multi_index_converter.py", '        match reference:\n            case "fit":\n                reference_indexes = self.coords_from_fit\n            case "transform":\n                reference_indexes = self.coords_from_transform\n', '        if reference == "fit":\n            reference_indexes = self.coords_from_fit\n        elif reference == "transform":\n            reference_indexes = self.coords_from_transform\n')
+B("C14", "multi-index reference as if / elif", "xeofs/preprocessing/multi_index_converter.py", '        match reference:\n            case "fit":\n                reference_indexes = self.coords_from_fit\n            case "transform":\n                reference_indexes = self.coords_from_transform\n', '        if reference == "fit":\n            reference_indexes = self.coords_from_fit\n        elif reference == "transform":\n            reference_indexes = self.coords_from_transform\n')
+M("C02", "multi-index unseen path restores from the fit coordinates", "xeofs/preprocessing/multi_index_converter.py", '            case "transform":\n                reference_indexes = self.coords_from_transform\n', '            case "transform":\n                reference_indexes = self.coords_from_fit\n', "MIRROR.state.multiindex.reference")
